@@ -130,12 +130,20 @@ func kindOfCols(res model.Result) func(string) string {
 
 // runQueryCase runs the query through the CLI and compares with the reference evaluator.
 func runQueryCase(c QueryCase) (o ev.Outcome) {
+	return runQueryCaseEx(c, nil)
+}
+
+// excuseFn may attribute a mismatch between the model result and the decoded output to a recorded known finding
+// (it returns the finding id, or "").
+type excuseFn func(res model.Result, got []Row) string
+
+func runQueryCaseEx(c QueryCase, excuse excuseFn) (o ev.Outcome) {
 	res := model.Eval(c.Q, c.Catalog())
-	if o := judgeQuery(c, res, fastRun(c.Inv())); o.Err == nil {
+	if o := judgeQuery(c, res, fastRun(c.Inv()), excuse); o.Err == nil {
 		return o
 	}
 	// anything that looks wrong is re-observed with an ordinary one-shot process; that observation is judged
-	return judgeQuery(c, res, Run(c.Inv()))
+	return judgeQuery(c, res, Run(c.Inv()), excuse)
 }
 
 func fastRun(inv Inv) Res {
@@ -146,7 +154,7 @@ func fastRun(inv Inv) Res {
 	return r
 }
 
-func judgeQuery(c QueryCase, res model.Result, r Res) (o ev.Outcome) {
+func judgeQuery(c QueryCase, res model.Result, r Res, excuse excuseFn) (o ev.Outcome) {
 	if r.TimedOut {
 		return ev.Outcome{Discard: true, Classes: []string{"timeout"}}
 	}
@@ -164,6 +172,11 @@ func judgeQuery(c QueryCase, res model.Result, r Res) (o ev.Outcome) {
 		return ev.Fail("%v\n  query: %s", err, c.Q.SQL())
 	}
 	if err := CompareResult(res, got, c.Mode == "csv"); err != nil {
+		if excuse != nil {
+			if id := excuse(res, got); id != "" {
+				return ev.Outcome{Excluded: id, Classes: []string{"excluded_" + id}}
+			}
+		}
 		return ev.Fail("%v\n  query: %s\n  mode: -o %s optimize=%v", err, c.Q.SQL(), c.Mode, !c.NoOpt)
 	}
 	var s qStats
